@@ -15,6 +15,7 @@ from sa.loader import AnalysisError, Unsupported, dotted_name, norm_text
 from sa.members import (MODEL, OTHER, PARAM, PARAMETRIC, PARAM_BASE, MODEL_BASE, UNKNOWN, Kinds, attr_reads,
                         has_dynamic_members, instance_members, registered_attrs, self_attr, transitive_reads)
 from sa.report import where
+from sa.util import backward_slice, local_assignments
 
 HP = 'handle_parameter_changed'
 HM = 'handle_model_changed'
@@ -243,7 +244,13 @@ def run(ctx, rep):
                       "loss, loggers or convergence check passes through the notification loop over self.parameters")
     rep.rule('C11.T', "a parameter class whose cached tensor is computed by calling a plain attribute (a transform) that itself may hold "
                       "parameters/models listens to that attribute")
+    rep.rule('C11.F', "a dirty flag is cleared only on paths that ran the refresh it guards")
+    rep.rule('C11.L', "values that are listened to are selected by the abstract parameter / model kind, never by a concrete leaf class")
+    rep.rule('C11.M', "a result memoised on the object is keyed by every method argument it depends on")
+    rep.rule('C11.X', "no transform is built with torch's (x, y) cache switched on: the cache is keyed on the identity of the input tensor, which in-place updates "
+                      "(optimiser steps, in-place proposals) do not change")
     rep.assumptions += [
+        "torch.distributions.Transform(cache_size=1) returns the cached image when called again with the same tensor object (fact table)",
         "kinds of constructor arguments are taken from the repository's own annotations",
         "Parametric.__setattr__ registers values of AbstractParameter / Model kind as listened-to attributes",
     ]
@@ -263,6 +270,163 @@ def run(ctx, rep):
         check_transform_listen(ctx, rep, kinds, cls)
     check_inplace(ctx, rep)
     check_optimizer(ctx, rep)
+    check_transform_cache(ctx, rep)
+    check_memo_keys(ctx, rep)
+    check_flag_clears(ctx, rep)
+    check_listener_filters(ctx, rep)
+
+
+# ---------------------------------------------------------------------------
+def check_flag_clears(ctx, rep, rule='C11.F'):
+    """`if self.F: <refresh>; self.F = False` — the flag may only be cleared on paths that ran the refresh (every self-method call / cache store of the block)"""
+    n = 0
+    for m in ctx.prog.modules.values():
+        for cname, cnode in m.classes.items():
+            for fn in [b for b in cnode.body if isinstance(b, ast.FunctionDef)]:
+                for node in ast.walk(fn):
+                    if not isinstance(node, ast.If):
+                        continue
+                    flag = self_attr(node.test) if isinstance(node.test, ast.Attribute) else None
+                    if flag is None:
+                        continue
+                    clears = [st for st in node.body if isinstance(st, ast.Assign) and any(self_attr(t) == flag for t in st.targets)
+                              and isinstance(st.value, ast.Constant) and st.value.value is False]
+                    if not clears:
+                        continue
+                    # refresh actions anywhere in the block (also nested): self.method(...) calls and stores to other self attributes
+                    actions = []
+                    for st in node.body:
+                        for x in ast.walk(st):
+                            if isinstance(x, ast.Call) and isinstance(x.func, ast.Attribute) and self_attr(x.func) and not x.func.attr.startswith('fire_'):
+                                actions.append(x)
+                            elif isinstance(x, ast.Assign) and any(self_attr(t) and self_attr(t) != flag for t in x.targets):
+                                actions.append(x)
+                    if not actions:
+                        continue
+                    n += 1
+                    # an action nested under a further condition is skipped on some path to the clear
+                    skipped = []
+                    for a in actions:
+                        p = getattr(a, '_parent', None)
+                        cond = False
+                        while p is not None and p is not node:
+                            if isinstance(p, (ast.If, ast.For, ast.While, ast.Try, ast.IfExp)):
+                                cond = True
+                            p = getattr(p, '_parent', None)
+                        if cond:
+                            skipped.append(a)
+                    unconditional = [a for a in actions if a not in skipped]
+                    ok = bool(unconditional) or not skipped
+                    rep.check(rule, f"{m.name}.{cname}.{fn.name}::self.{flag}-cleared-only-after-the-refresh", ok, where(m, clears[0]),
+                              {'refresh_actions': [norm_text(a)[:50] for a in actions], 'conditional': [norm_text(a)[:50] for a in skipped]},
+                              f"{cname}.{fn.name} clears self.{flag} although every refresh in the guarded block ({[norm_text(a)[:40] for a in skipped]}) sits under a further "
+                              f"condition: on the path that skips it the cache is declared fresh without having been recomputed")
+    rep.analysed[f'flag_clear_sites[{rule}]'] = n
+    return n
+
+
+# ---------------------------------------------------------------------------
+def check_listener_filters(ctx, rep, rule='C11.L'):
+    """in constructors of Parametric classes, a comprehension that selects what is put into a listened Container / registered list by `isinstance(v, K)` must use the
+    abstract kind (AbstractParameter / Model …): with a concrete leaf class (Parameter) transformed, view and concatenated parameters are used but not listened to"""
+    n = 0
+    concrete = {c.name for c in ctx.classes.subclasses(PARAM_BASE) if c.name not in ('AbstractParameter',)}
+    for cls in ctx.classes.subclasses(PARAMETRIC):
+        init = cls.methods.get('__init__') if hasattr(cls, 'methods') else None
+        fn = init if isinstance(init, ast.FunctionDef) else (init[1] if init else None)
+        if fn is None:
+            continue
+        for comp in ast.walk(fn):
+            if not isinstance(comp, (ast.ListComp, ast.GeneratorExp, ast.SetComp, ast.DictComp)):
+                continue
+            for g in comp.generators:
+                for cond in g.ifs:
+                    for c in ast.walk(cond):
+                        if isinstance(c, ast.Call) and isinstance(c.func, ast.Name) and c.func.id == 'isinstance' and len(c.args) == 2:
+                            names = [x.id for x in ast.walk(c.args[1]) if isinstance(x, ast.Name)]
+                            n += 1
+                            bad = [k for k in names if k in concrete]
+                            rep.check(rule, f"{cls.qualname}.__init__::{norm_text(cond)[:50]}", not bad, where(cls.module, comp), {'classes': names},
+                                      f"{cls.name}.__init__ selects the values it listens to with `{norm_text(cond)[:60]}`: {bad} is one concrete parameter class, so a "
+                                      f"TransformedParameter / ViewParameter / CatParameter given in the same place is read at evaluation but never listened to")
+    rep.analysed[f'listener_filters[{rule}]'] = n
+    return n
+
+
+# ---------------------------------------------------------------------------
+def check_memo_keys(ctx, rep, rule='C11.M', only=None):
+    """a result kept on the object across calls (`if K not in self.C: self.C[K] = E`, `if self.C is None: self.C = E`) must not depend on an argument of the
+    method that is neither part of the key nor of the guard: the second caller with another argument gets the first caller's result"""
+    n = 0
+    for m in ctx.prog.modules.values():
+        if only is not None and not only(m):
+            continue
+        for cname, cnode in m.classes.items():
+            for fn in [b for b in cnode.body if isinstance(b, ast.FunctionDef)]:
+                params = {a.arg for a in fn.args.args + fn.args.kwonlyargs} - {'self', 'cls'}
+                if not params or fn.name in ('__init__', 'from_json', 'json_factory'):
+                    continue
+                defs = local_assignments(fn)
+                for node in ast.walk(fn):
+                    if not isinstance(node, ast.If):
+                        continue
+                    t = node.test
+                    store_key = None
+                    # `K not in self.C`
+                    if isinstance(t, ast.Compare) and len(t.ops) == 1 and isinstance(t.ops[0], ast.NotIn) and self_attr(t.comparators[0]):
+                        cache = self_attr(t.comparators[0])
+                        guard_names = {x.id for x in ast.walk(t.left) if isinstance(x, ast.Name)}
+                        stores = [st for st in node.body if isinstance(st, ast.Assign) and any(isinstance(tg, ast.Subscript) and self_attr(tg.value) == cache for tg in st.targets)]
+                    elif isinstance(t, ast.Compare) and len(t.ops) == 1 and isinstance(t.ops[0], ast.Is) and self_attr(t.left) and isinstance(t.comparators[0], ast.Constant) \
+                            and t.comparators[0].value is None:
+                        cache = self_attr(t.left)
+                        guard_names = set()
+                        stores = [st for st in node.body if isinstance(st, ast.Assign) and any(self_attr(tg) == cache for tg in st.targets)]
+                    else:
+                        continue
+                    for st in stores:
+                        n += 1
+                        dep = {x.id for e in backward_slice(st.value, defs) for x in ast.walk(e) if isinstance(x, ast.Name) and x.id in params}
+                        key_names = set(guard_names)
+                        for tg in st.targets:
+                            if isinstance(tg, ast.Subscript):
+                                key_names |= {x.id for x in ast.walk(tg.slice) if isinstance(x, ast.Name)}
+                        missing = sorted(dep - key_names)
+                        rep.check(rule, f"{m.name}.{cname}.{fn.name}::self.{cache}", not missing, where(m, st), {'depends_on': sorted(dep), 'key': sorted(key_names)},
+                                  f"{cname}.{fn.name} keeps `{norm_text(st.value)[:60]}` in self.{cache} across calls, but that value depends on the argument(s) {missing} which are not part "
+                                  f"of the key: a later call with another argument is answered with the first caller's result")
+    rep.analysed[f'memo_sites[{rule}]'] = n
+
+
+# ---------------------------------------------------------------------------
+def check_transform_cache(ctx, rep, rule='C11.X'):
+    n = 0
+    for m in ctx.prog.modules.values():
+        for c in ast.walk(m.tree):
+            if not isinstance(c, ast.Call):
+                continue
+            for k in c.keywords:
+                if k.arg != 'cache_size':
+                    continue
+                n += 1
+                fn = c
+                while fn is not None and not isinstance(fn, ast.FunctionDef):
+                    fn = getattr(fn, '_parent', None)
+                key = f"{m.name}::{fn.name if fn else '<module>'}::{norm_text(c)[:60]}"
+                v = k.value
+                ok = isinstance(v, ast.Constant) and v.value == 0
+                if isinstance(v, ast.Name) and fn is not None:
+                    # pass-through of a constructor argument whose default is 0
+                    names = [a.arg for a in fn.args.args + fn.args.kwonlyargs]
+                    defaults = dict(zip([a.arg for a in fn.args.args][len(fn.args.args) - len(fn.args.defaults):], fn.args.defaults))
+                    defaults.update({a.arg: d for a, d in zip(fn.args.kwonlyargs, fn.args.kw_defaults) if d is not None})
+                    d = defaults.get(v.id)
+                    ok = v.id in names and isinstance(d, ast.Constant) and d.value == 0
+                rep.check(rule, key, ok, where(m, c), None,
+                          f"`{norm_text(c)[:70]}` switches on the transform's (x, y) cache, which is keyed on the identity of x: after an in-place update of the "
+                          f"parameter (optimiser step + fire_parameter_changed, in-place proposal) the transform returns the image of the old value")
+    if n < 5:
+        raise AnalysisError(f"only {n} cache_size arguments found (transform constructors moved?)")
 
 
 # ---------------------------------------------------------------------------
@@ -402,8 +566,9 @@ def notifies(cls: ClassInfo, fn: ast.FunctionDef) -> Tuple[bool, dict]:
         if isinstance(st, (ast.Assign, ast.AugAssign)):
             targets = st.targets if isinstance(st, ast.Assign) else [st.target]
             for t in targets:
-                if isinstance(t, ast.Attribute) and t.attr in ('tensor', 'requires_grad') and self_attr(t) is None:
-                    return {'notify'}  # assignment through another parameter's setter
+                if isinstance(t, ast.Attribute) and t.attr in ('tensor', 'requires_grad') and self_attr(t) is None \
+                        and not (self_attr(t.value) or '').endswith('_tensor') and not (isinstance(t.value, ast.Attribute) and t.value.attr in ('_tensor', 'data', 'grad')):
+                    return {'notify'}  # assignment through another parameter's setter (a raw tensor attribute has no listeners)
         if isinstance(st, ast.For):
             # loop over sub-parameters assigning through their setters (CatParameter idiom)
             for b in ast.walk(ast.Module(body=st.body, type_ignores=[])):
@@ -509,13 +674,15 @@ def check_transform_listen(ctx, rep, kinds, cls: ClassInfo):
 
 
 # ---------------------------------------------------------------------------
-def check_inplace(ctx, rep):
+def check_inplace(ctx, rep, rule='C11.W', only=None):
     """in-place writes to <p>.tensor (directly or through a local alias) are followed by a
     notification on all paths."""
     n_sites = 0
     for m in ctx.prog.modules.values():
         for fn in ast.walk(m.tree):
             if not isinstance(fn, (ast.FunctionDef, ast.AsyncFunctionDef)):
+                continue
+            if only is not None and not only(m, fn):
                 continue
             aliases: Dict[str, ast.AST] = {}
             for st in ast.walk(fn):
@@ -538,6 +705,36 @@ def check_inplace(ctx, rep):
                     owner = base.value
                 elif isinstance(base, ast.Name) and base.id in aliases and isinstance(tgt, ast.Subscript):
                     owner = aliases[base.id]
+                if owner is not None:
+                    writes.append((st, owner))
+            # in-place tensor methods: <p>.tensor.copy_(…), alias.add_(…), and Parameter.copy_ (which writes into the stored tensor without notifying)
+            in_param_class = False
+            pc = fn
+            while pc is not None and not isinstance(pc, ast.ClassDef):
+                pc = getattr(pc, '_parent', None)
+            for st in ast.walk(fn):
+                if not (isinstance(st, ast.Expr) and isinstance(st.value, ast.Call) and isinstance(st.value.func, ast.Attribute)):
+                    continue
+                c = st.value
+                name = c.func.attr
+                if not name.endswith('_') or name.startswith('_') or name in ('requires_grad_', 'retain_grad_'):
+                    continue
+                recv = c.func.value
+                owner = None
+                if isinstance(recv, ast.Attribute) and recv.attr == 'tensor' and self_attr(recv) is None:
+                    owner = recv.value
+                elif isinstance(recv, ast.Name) and recv.id in aliases:
+                    owner = aliases[recv.id]
+                elif name == 'copy_' and self_attr(recv) is not None and pc is not None:
+                    ci = ctx.classes.classes.get(f"{m.name}.{pc.name}")
+                    if ci is not None:
+                        from sa.members import Kinds, instance_members, PARAM
+                        try:
+                            k = Kinds(ctx.classes).attr_kind(ci, self_attr(recv)) if hasattr(Kinds(ctx.classes), 'attr_kind') else None
+                        except Exception:
+                            k = None
+                        if k == PARAM or (k is None and _is_param_attr(ctx, ci, self_attr(recv))):
+                            owner = recv
                 if owner is not None:
                     writes.append((st, owner))
             if not writes:
@@ -568,13 +765,32 @@ def check_inplace(ctx, rep):
                 try:
                     src = cfg.node_of(st)
                 except KeyError:
-                    rep.undecided('C11.W', key, where(m, st), 'statement not in CFG')
+                    rep.undecided(rule, key, where(m, st), 'statement not in CFG')
                     continue
                 ok = cfg.must_pass(src, cfg.exit, notif)
-                rep.check('C11.W', key, ok, where(m, st), {'owner': otext, 'notifications': [n.stmt.lineno for n in notif]},
-                          f"in-place write to {otext}.tensor is not followed on every path by `{otext}.tensor = …` or "
+                rep.check(rule, key, ok, where(m, st), {'owner': otext, 'notifications': [n.stmt.lineno for n in notif]},
+                          f"in-place write to {otext}'s tensor (`{norm_text(st)[:60]}`) is not followed on every path by `{otext}.tensor = …` or "
                           f"`{otext}.fire_parameter_changed()`: listeners keep stale caches")
-    rep.analysed['inplace_write_sites'] = n_sites
+    rep.analysed[f'inplace_write_sites[{rule}]'] = n_sites
+    return n_sites
+
+
+def _is_param_attr(ctx, ci, attr: str) -> bool:
+    """self.<attr> is assigned a Parameter(...) / a constructor argument annotated as a parameter in the class's __init__ chain"""
+    for c in [ci] + list(ci.internal_mro()):
+        r = c.methods.get('__init__') if hasattr(c, 'methods') else None
+        fn = r if isinstance(r, ast.FunctionDef) else (r[1] if r else None)
+        if fn is None:
+            continue
+        ann = {a.arg: (ast.unparse(a.annotation) if a.annotation is not None else '') for a in fn.args.args}
+        for st in ast.walk(fn):
+            if isinstance(st, ast.Assign) and any(self_attr(t) == attr for t in st.targets):
+                v = st.value
+                if isinstance(v, ast.Call) and (dotted_name(v.func) or '').split('.')[-1] in ('Parameter', 'TransformedParameter', 'CatParameter', 'ViewParameter'):
+                    return True
+                if isinstance(v, ast.Name) and 'Parameter' in ann.get(v.id, ''):
+                    return True
+    return False
 
 
 # ---------------------------------------------------------------------------
